@@ -57,6 +57,7 @@ func (w *world) faults() {
 		sub      byte
 		trunc    bool
 		doc      bool // fault in the signed document of a detached signature
+		second   int  // >0: additionally flip bit 0 of the octet at this offset (MDC packet header inside the ciphertext)
 	}
 	var jobs []job
 	outs := make([][]byte, len(reps))
@@ -78,6 +79,16 @@ func (w *world) faults() {
 				jobs = append(jobs, job{rep: ri, off: off, sub: x})
 			}
 			jobs = append(jobs, job{rep: ri, off: off, trunc: true})
+		}
+		if s.op != "sign" && !strings.Contains(s.op, "detach") && s.signer == "" {
+			// "MDC stripping": the two ciphertext octets that carry the MDC packet header (22 and 21 octets
+			// before the end) are damaged as well, so a reader that treats a missing MDC packet as
+			// "not protected" would accept the first fault
+			for _, second := range []int{len(out) - 22, len(out) - 21} {
+				for off := 0; off < len(out)-22; off++ {
+					jobs = append(jobs, job{rep: ri, off: off, sub: out[off] ^ 1, second: second})
+				}
+			}
 		}
 		if strings.Contains(s.op, "detach") {
 			for off := range s.msg {
@@ -135,16 +146,22 @@ func (w *world) faults() {
 		if j.doc {
 			what += " (in the signed document)"
 		}
+		if j.second > 0 {
+			what += fmt.Sprintf(" plus bit 0 of offset %d (MDC packet header)", j.second)
+		}
 		mutate := func(src []byte) []byte {
 			if j.trunc {
 				return append([]byte{}, src[:j.off]...)
 			}
 			m := append([]byte{}, src...)
 			m[j.off] = j.sub
+			if j.second > 0 {
+				m[j.second] ^= 1
+			}
 			return m
 		}
 		c.Eval(1)
-		c.Nontrivial(fmt.Sprintf("F/%d/%d/%v/%02x/%v", j.rep, j.off, j.trunc, j.sub, j.doc))
+		c.Nontrivial(fmt.Sprintf("F/%d/%d/%v/%02x/%v/%d", j.rep, j.off, j.trunc, j.sub, j.doc, j.second))
 		detail := func(extra map[string]any) map[string]any {
 			d := map[string]any{"fault": what, "case": s.String(), "original_hex": fmt.Sprintf("%x", orig)}
 			for k, v := range extra {
